@@ -55,6 +55,11 @@ pub trait Subject {
     fn relocate(self: Box<Self>) -> (Box<dyn Subject>, bool);
 }
 
+/// collect()/extend() from an iterator with an inexact size hint in this run?
+fn inexact() -> bool {
+    with(|w| w.inexact_iter)
+}
+
 fn guard<R>(f: impl FnOnce() -> R) -> Result<R, ()> {
     crate::flags::F.with(|f| f.quiet_panic.set(true));
     let r = catch_unwind(AssertUnwindSafe(f)).map_err(|_| ());
@@ -229,7 +234,11 @@ where
         }
     }
     fn extend(&mut self, ids: Vec<u32>) -> bool {
-        guard(|| self.0.extend(ids.into_iter().map(F::make))).is_ok()
+        if inexact() {
+            guard(|| self.0.extend(ids.into_iter().filter(|_| true).map(F::make))).is_ok()
+        } else {
+            guard(|| self.0.extend(ids.into_iter().map(F::make))).is_ok()
+        }
     }
     fn poll(&mut self, cx: &mut Context<'_>) -> PollOut {
         map_stream_g(Pin::new(&mut self.0).poll_next(cx))
@@ -265,7 +274,11 @@ where
         }
     }
     fn extend(&mut self, ids: Vec<u32>) -> bool {
-        guard(|| self.0.extend(ids.into_iter().map(F::make))).is_ok()
+        if inexact() {
+            guard(|| self.0.extend(ids.into_iter().filter(|_| true).map(F::make))).is_ok()
+        } else {
+            guard(|| self.0.extend(ids.into_iter().map(F::make))).is_ok()
+        }
     }
     fn poll(&mut self, cx: &mut Context<'_>) -> PollOut {
         map_stream_g(Pin::new(&mut self.0).poll_next(cx))
@@ -451,22 +464,29 @@ pub fn build(cfg: &Config, initial: Vec<u32>) -> Result<Box<dyn Subject>, ()> {
     let sp = cfg.start_pos;
     guard(move || -> Box<dyn Subject> {
         crate::flags::in_crate(|| -> Box<dyn Subject> {
+            // collect() from an exact or an inexact iterator
+            let inexact_it = cfg.inexact_iter;
+            let initial: Box<dyn Iterator<Item = u32>> = if inexact_it {
+                Box::new(initial.into_iter().filter(|_| true))
+            } else {
+                Box::new(initial.into_iter())
+            };
             // type shapes: (future with/without drop glue) x (output with/without drop glue)
             macro_rules! coll {
                 ($F:ty) => {
                     match cfg.subject {
                         SubjectKind::FUB => match cfg.ctor {
-                            Ctor::Collect => Box::new(SFub::<$F>(initial.into_iter().map(<$F as Child>::make).collect())) as Box<dyn Subject>,
+                            Ctor::Collect => Box::new(SFub::<$F>(initial.map(<$F as Child>::make).collect())) as Box<dyn Subject>,
                             _ => Box::new(SFub::<$F>(FuturesUnorderedBounded::new(cap))),
                         },
                         SubjectKind::FU => match cfg.ctor {
-                            Ctor::Collect => Box::new(SFu::<$F>(initial.into_iter().map(<$F as Child>::make).collect())),
+                            Ctor::Collect => Box::new(SFu::<$F>(initial.map(<$F as Child>::make).collect())),
                             Ctor::WithCapacity => Box::new(SFu::<$F>(FuturesUnordered::with_capacity(cap))),
                             Ctor::New => Box::new(SFu::<$F>(FuturesUnordered::new())),
                         },
                         SubjectKind::FOB => {
                             let mut q: FuturesOrderedBounded<$F> = match cfg.ctor {
-                                Ctor::Collect => initial.into_iter().map(<$F as Child>::make).collect(),
+                                Ctor::Collect => initial.map(<$F as Child>::make).collect(),
                                 _ => FuturesOrderedBounded::new(cap),
                             };
                             if let Some(p) = sp {
@@ -478,7 +498,7 @@ pub fn build(cfg: &Config, initial: Vec<u32>) -> Result<Box<dyn Subject>, ()> {
                         }
                         SubjectKind::FO => {
                             let mut q: FuturesOrdered<$F> = match cfg.ctor {
-                                Ctor::Collect => initial.into_iter().map(<$F as Child>::make).collect(),
+                                Ctor::Collect => initial.map(<$F as Child>::make).collect(),
                                 Ctor::WithCapacity => FuturesOrdered::with_capacity(cap),
                                 Ctor::New => FuturesOrdered::new(),
                             };
@@ -489,7 +509,7 @@ pub fn build(cfg: &Config, initial: Vec<u32>) -> Result<Box<dyn Subject>, ()> {
                             }
                             Box::new(SFo(q))
                         }
-                        SubjectKind::JA => Box::new(SJa::<$F>(join_all(initial.into_iter().map(<$F as Child>::make)))),
+                        SubjectKind::JA => Box::new(SJa::<$F>(join_all(initial.map(<$F as Child>::make)))),
                         _ => unreachable!(),
                     }
                 };
@@ -502,14 +522,14 @@ pub fn build(cfg: &Config, initial: Vec<u32>) -> Result<Box<dyn Subject>, ()> {
                     _ => coll!(NdFut<PlainRaw>),
                 },
                 SubjectKind::TJA => match cfg.shape & 3 {
-                    0 => Box::new(STja(try_join_all(initial.into_iter().map(SimFut::<Try>::new)))),
-                    1 => Box::new(STja(try_join_all(initial.into_iter().map(NdFut::<Try>::new)))),
-                    2 => Box::new(STja(try_join_all(initial.into_iter().map(SimFut::<TryRaw>::new)))),
-                    _ => Box::new(STja(try_join_all(initial.into_iter().map(NdFut::<TryRaw>::new)))),
+                    0 => Box::new(STja(try_join_all(initial.map(SimFut::<Try>::new)))),
+                    1 => Box::new(STja(try_join_all(initial.map(NdFut::<Try>::new)))),
+                    2 => Box::new(STja(try_join_all(initial.map(SimFut::<TryRaw>::new)))),
+                    _ => Box::new(STja(try_join_all(initial.map(NdFut::<TryRaw>::new)))),
                 },
-                SubjectKind::MB => Box::new(SMb(initial.into_iter().map(SimSrc::new).collect())),
+                SubjectKind::MB => Box::new(SMb(initial.map(SimSrc::new).collect())),
                 SubjectKind::MU => match cfg.ctor {
-                    Ctor::Collect => Box::new(SMu(initial.into_iter().map(SimSrc::new).collect())),
+                    Ctor::Collect => Box::new(SMu(initial.map(SimSrc::new).collect())),
                     _ => Box::new(SMu(MergeUnbounded::new())),
                 },
                 SubjectKind::BU => Box::new(SBu(Box::pin(SimUp::<UpPlain>::new().buffered_unordered(cap)))),
